@@ -119,5 +119,13 @@ pub fn check(cx: &Cx, rep: &mut Report) {
         }
     }
     super::submission_starvation("C02", cx, rep);
+    // R4 (cont.): whoever awaits / joins an actor that has accepted a stop gets an answer without outside help: the
+    // actor does not sit idle at a quiescent point with the request accepted
+    for (tag, acc, q) in super::idle_after_accepted_stop(cx) {
+        let waiting = ix.ops.iter().any(|o| o.tag == tag && matches!(o.op, OpK::Await | OpK::AwaitRef | OpK::Join | OpK::Halt | OpK::Consume) && o.b < q && o.e.map(|e| e > q).unwrap_or(true));
+        if waiting {
+            rep.fail(P, "R4", "waiter_stuck_after_accepted_stop", format!("actor tag {tag} accepted a stop request (returned at #{acc}) but is idle and alive at the quiescent point #{q} while an await / join on it is pending"), vec![acc, q]);
+        }
+    }
     rep.nontrivial = callers.len() >= 2 && kinds.len() >= 2;
 }
